@@ -26,7 +26,7 @@ ASSUMPTIONS = [
 REQUIRED_CLAUSES = ["carry-conservation", "value-in-bounds", "exact-cumulative", "nonneg", "type-monotone", "unit", "normal-value-exists", "passthrough", "batching-invariance",
                     "runner-throughput-reaches-sample", "passthrough-end-to-end", "driver-keeps-calculator-across-batches"]
 REQUIRED_FEATURES = {"three-batches-in-one-bucket": 5, "out-of-order": 5, "warmup-to-normal": 5, "runner-supplied": 5, "host-skew": 3, "class-executor": 20, "runner-supplied-zero": 5,
-                     "failed-requests-in-calculated-task": 50, "runner-supplied-with-failed-requests": 50, "class-driver": 100, "driver-tick-then-join-point": 50, "driver-two-steps": 50}
+                     "failed-requests-in-calculated-task": 50, "runner-supplied-with-failed-requests": 50, "class-driver": 100, "driver-batch-of-several-messages": 50, "driver-tick-then-join-point": 50, "driver-two-steps": 50}
 BUDGET = {
     "quick": {"cases": 160000, "seconds": 40},
     "thorough": {"cases": 1200000, "seconds": 600},
